@@ -88,6 +88,7 @@ Step(ww, r) ==
     [] r.e = "change"     -> WChange(ww, r.subs)
     [] r.e = "event"      -> IF r.t = "chg" THEN WEvent(ww, r.name) ELSE WClosingEvent(ww, r.kind)
     [] r.e = "events_end" -> WEventsEnd(ww)
+    [] r.e = "events_dropped" -> WEventsDropped(ww)
     [] r.e = "timeout"    -> WTimeout(ww)
     [] r.e = "wstall"     -> WStall(ww, TRUE)
     [] r.e = "wresume"    -> WStall(ww, FALSE)
